@@ -35,7 +35,7 @@ type c16tiers struct{ Order, Slurp, Raw, StreamDocs, Malformed, Args int }
 
 func c16tier(t string) c16tiers {
 	if t == "thorough" {
-		return c16tiers{Order: 200000, Slurp: 60000, Raw: 60000, StreamDocs: 12000, Malformed: 100000, Args: 60000}
+		return c16tiers{Order: 1000000, Slurp: 200000, Raw: 200000, StreamDocs: 60000, Malformed: 400000, Args: 200000}
 	}
 	return c16tiers{Order: 40000, Slurp: 8000, Raw: 8000, StreamDocs: 2000, Malformed: 20000, Args: 10000}
 }
@@ -391,20 +391,22 @@ func genArgs(r *kernel.Rand, d *c16Data) {
 			bind(name, txt)
 		}
 	}
+	// positional arguments: one to three segments, each introduced by --args or --jsonargs, in
+	// command-line order (the flags may alternate)
 	var positional []any
-	np := r.Range(0, 3)
-	if np > 0 {
+	for seg := r.Range(0, 3); seg > 0; seg-- {
+		np := r.Range(0, 3)
 		if r.Bool(0.5) {
 			sc.PostArgs = append(sc.PostArgs, "--args")
 			for i := 0; i < np; i++ {
-				v := kernel.Pick(r, []string{"p", "1", "two words", "", "null"})
+				v := kernel.Pick(r, []string{"p", "1", "two words", "", "null", "[1]", "héllo"})
 				sc.PostArgs = append(sc.PostArgs, v)
 				positional = append(positional, v)
 			}
 		} else {
 			sc.PostArgs = append(sc.PostArgs, "--jsonargs")
 			for i := 0; i < np; i++ {
-				js := kernel.Pick(r, []string{`1`, `"s"`, `null`, `[1,2]`, `{"a":null}`, `false`})
+				js := kernel.Pick(r, []string{`1`, `"s"`, `null`, `[1,2]`, `{"a":null}`, `false`, `100000000000000000000`, `1.0`})
 				sc.PostArgs = append(sc.PostArgs, js)
 				positional = append(positional, json.RawMessage(js))
 			}
